@@ -4,7 +4,7 @@ For one contract: draw N diverse models of (type facts AND requires) from z3, ru
 natively on each (contract.native or a plain call), and evaluate the same contract text with CPython.
 A native violation of a clause whose obligations were all discharged exposes an unsound encoding or
 harness (checker error); on a changed tree it is further evidence for the refuted obligation.
-Sampling domain (stated bound): sequence lengths <= 24, unbounded integers within +-10**6."""
+Sampling domain (stated bound): sequence lengths <= 24, unbounded integers within +-10**6 (+-2**72 for contracts marked sample_wide)."""
 import random
 import signal
 import time
@@ -107,7 +107,9 @@ def sample_contract(con, contracts, n, seed):
         base.add(ln <= 24)
     for sc in scalars:
         if z3.is_int(sc) and not (z3.is_const(sc) and sc.decl().name() in ops.RANGES):
-            base.add(sc >= -10 ** 6, sc <= 10 ** 6)      # unbounded integers: sampled within +-10**6
+            wide = getattr(con.cls, "sample_wide", False)     # pure arithmetic contracts opt in to huge operands
+            lim = 2 ** 72 if wide else 10 ** 6
+            base.add(sc >= -lim, sc <= lim)      # unbounded integers: sampled within +-10**6 (+-2**72 if sample_wide)
     seen = set()
     old = signal.signal(signal.SIGALRM, _alarm)
     try:
@@ -124,6 +126,8 @@ def sample_contract(con, contracts, n, seed):
                         base.add(sc == z3.BitVecVal(rng.choice(POOL), sc.size()))
                     elif z3.is_real(sc):
                         base.add(sc == z3.RealVal(rng.choice(POOL)) / rng.choice([1, 2, 3, 16]) * rng.choice([1, -1]))
+                    elif getattr(con.cls, "sample_wide", False) and rng.random() < 0.5:
+                        base.add(sc == (2 ** rng.choice([52, 53, 54, 60, 63, 64, 70]) + rng.choice([-1, 0, 1, 3])) * rng.choice([1, 1, -1]))
                     else:
                         base.add(sc == rng.choice(POOL) * rng.choice([1, 1, 1, -1]))
                     ok = base.check() == z3.sat
